@@ -34,11 +34,28 @@ RULE = (
     "(quick) / 0..6 (thorough). non-trivial = pair with overlapping footprints or a defined plane side; distinct = (kind, class, mode, frame)"
 )
 ASSUMPTIONS = ["positive box sizes, yaw-only rotations, finite numbers", "IoU tolerance 1e-8 absolute, distances 1e-9 + 1e-7 relative"]
-DECIDING = ["MatchingMethod.events_judged", "C06.symmetry_checked", "C06.rotation_checked", "C06.translation_checked", "C06.roi_pairs", "C06.plane_checked", "C06.derived_checked"]
+DECIDING = ["MatchingMethod.events_judged", "C06.symmetry_checked", "C06.rotation_checked", "C06.translation_checked", "C06.roi_pairs", "C06.plane_checked", "C06.derived_checked", "C06.collinear_checked"]
 JOBS = {"quick": 4, "thorough": 14}
 IOU_TOL = 1e-8
 
+KNOWN_COLLINEAR = "C06/iou_zero_for_overlapping_boxes_with_collinear_edges"
+
 CURRENT_T: Dict[str, Any] = {"ego_T": None}
+
+
+class Unaffected:
+    """Metamorphic comparisons between two library values are only meaningful when neither value is an instance of the
+    known finding (which the tap has already classified and recorded on the individual event)."""
+
+    def __init__(self, ctx: Ctx):
+        self.ctx = ctx
+        self.k0 = ctx.counters.get("C06.known_collinear_zero", 0)
+
+    def check(self, ok: bool, mechanism: str, detail: Any, tap: str) -> None:
+        if not ok and self.ctx.counters.get("C06.known_collinear_zero", 0) != self.k0:
+            self.ctx.count("C06.comparison_skipped_known_finding")
+            return
+        self.ctx.check(ok, mechanism, detail, tap)
 
 
 def install(taps: Taps, ctx: Ctx) -> None:
@@ -79,6 +96,12 @@ def judge(ctx: Ctx, m: Any, e: Any, g: Any, transforms: Any) -> None:
         ctx.check(close(float(v), ref, 1e-9, 1e-7), "C06/center_distance_not_euclidean", info, tap)
     else:
         mech = "C06/iou2d_not_true_iou" if mode == MatchingMode.IOU2D else "C06/iou3d_not_true_iou"
+        if is3d and float(v) == 0.0 and ref > IOU_TOL and G.boxes_collinear(O.box_of(e), O.box_of(g)):
+            # known finding D16: the GEOS overlay returns an empty / point intersection for overlapping footprints that
+            # have an edge on a common line within rounding; classified by that geometry, never by the case identity
+            ctx.count("C06.known_collinear_zero")
+            ctx.violation(KNOWN_COLLINEAR, info, tap=tap)
+            return
         ctx.check(abs(float(v) - ref) <= IOU_TOL, mech, info, tap)
         ctx.check(-1e-12 <= float(v) <= 1.0 + 1e-9, "C06/iou_outside_unit_interval", info, tap)
 
@@ -155,16 +178,17 @@ def box_pairs(ctx: Ctx, n: int) -> None:
         tr = O.transforms_for(*ego) if frame == "map" else None
         ctx.begin_case("boxes", idx, cls=cls, frame=frame, a=a, b=b, ego=ego)
         e, g = mk(a, frame, ego, negate=r.random() < 0.3), mk(b, frame, ego, negate=r.random() < 0.3)
+        ua = Unaffected(ctx)
         v = values(e, g, tr)
         # symmetry (distance, IoU)
         vs = values(g, e, tr)
         ctx.count("C06.symmetry_checked")
-        ctx.check(close(v["cd"], vs["cd"], 1e-9, 1e-9) and abs(v["iou2d"] - vs["iou2d"]) <= IOU_TOL and abs(v["iou3d"] - vs["iou3d"]) <= IOU_TOL, "C06/score_not_symmetric", dict(cls=cls, a=v, b=vs), "MatchingMethod")
-        ctx.check(v["iou3d"] <= v["iou2d"] + IOU_TOL, "C06/iou3d_exceeds_iou_bev", dict(cls=cls, v=v), "MatchingMethod")
+        ua.check(close(v["cd"], vs["cd"], 1e-9, 1e-9) and abs(v["iou2d"] - vs["iou2d"]) <= IOU_TOL and abs(v["iou3d"] - vs["iou3d"]) <= IOU_TOL, "C06/score_not_symmetric", dict(cls=cls, a=v, b=vs), "MatchingMethod")
+        ua.check(v["iou3d"] <= v["iou2d"] + IOU_TOL, "C06/iou3d_exceeds_iou_bev", dict(cls=cls, v=v), "MatchingMethod")
         pa, pb = G.box_corners(a[0], a[1], a[3], a[4], a[5]), G.box_corners(b[0], b[1], b[3], b[4], b[5])
         inter = G.intersection_area(pa, pb)
         if cls == "identical":
-            ctx.check(abs(v["iou2d"] - 1.0) <= IOU_TOL and abs(v["iou3d"] - 1.0) <= IOU_TOL and abs(v["cd"]) <= 1e-9 and abs(v["pd"]) <= 1e-9, "C06/identical_boxes_not_extreme_scores", dict(v=v), "MatchingMethod")
+            ua.check(abs(v["iou2d"] - 1.0) <= IOU_TOL and abs(v["iou3d"] - 1.0) <= IOU_TOL and abs(v["cd"]) <= 1e-9 and abs(v["pd"]) <= 1e-9, "C06/identical_boxes_not_extreme_scores", dict(v=v), "MatchingMethod")
         if cls in ("disjoint",) or inter == 0.0:
             ctx.check(v["iou2d"] == 0.0 and v["iou3d"] == 0.0, "C06/disjoint_boxes_nonzero_iou", dict(cls=cls, v=v), "MatchingMethod")
         if cls == "z_disjoint":
@@ -179,13 +203,13 @@ def box_pairs(ctx: Ctx, n: int) -> None:
         ok = close(v["cd"], v2["cd"], 1e-9 * scale, 1e-9) and abs(v["iou2d"] - v2["iou2d"]) <= IOU_TOL and abs(v["iou3d"] - v2["iou3d"]) <= IOU_TOL
         if margin >= BOUNDARY * 10:
             ok = ok and close(v["pd"], v2["pd"], 1e-8 * scale, 1e-7)
-        ctx.check(ok, "C06/score_changes_under_common_rotation_about_ego", dict(cls=cls, theta=theta, before=v, after=v2, margin=margin), "MatchingMethod")
+        ua.check(ok, "C06/score_changes_under_common_rotation_about_ego", dict(cls=cls, theta=theta, before=v, after=v2, margin=margin), "MatchingMethod")
         # common translation (distance and IoU)
         t = (r.uniform(-500, 500), r.uniform(-500, 500), r.uniform(-5, 5))
         e3, g3 = mk(rigid(a, 0.0, t), frame, ego), mk(rigid(b, 0.0, t), frame, ego)
         v3 = values(e3, g3, tr)
         ctx.count("C06.translation_checked")
-        ctx.check(
+        ua.check(
             close(v["cd"], v3["cd"], 1e-8, 1e-9) and abs(v["iou2d"] - v3["iou2d"]) <= 10 * IOU_TOL and abs(v["iou3d"] - v3["iou3d"]) <= 10 * IOU_TOL,
             "C06/score_changes_under_common_translation",
             dict(cls=cls, t=t, before=v, after=v3),
@@ -260,6 +284,7 @@ def derived_pairs(ctx: Ctx, n: int) -> None:
         ctx.begin_case("derived", idx, cls=cls, a=a, b=b)
         with ctx.case_guard("derived"):
             e, g = O.obj3d(*a, uuid="e"), O.obj3d(*b, uuid="g")
+            ua = Unaffected(ctx)
             v0 = values(e, g)  # footprints / scores computed once on the originals
             ego_a = O.ego2map((r.uniform(-300, 300), r.uniform(-300, 300), 0.0), O.rand_yaw(r))
             ego_b = O.ego2map((r.uniform(-300, 300), r.uniform(-300, 300), 0.0), O.rand_yaw(r))
@@ -267,7 +292,7 @@ def derived_pairs(ctx: Ctx, n: int) -> None:
             for o in (em, gm):
                 o.frame_id = FrameID.MAP
             vm = values(em, gm, TransformDict([ego_a]))  # judged by the tap against the *current* poses
-            ctx.check(abs(vm["iou2d"] - v0["iou2d"]) <= 10 * IOU_TOL and abs(vm["iou3d"] - v0["iou3d"]) <= 10 * IOU_TOL and close(vm["cd"], v0["cd"], 1e-8, 1e-9), "C06/score_changes_under_common_rigid_motion_of_derived_objects", dict(cls=cls, before=v0, after=vm), "MatchingMethod")
+            ua.check(abs(vm["iou2d"] - v0["iou2d"]) <= 10 * IOU_TOL and abs(vm["iou3d"] - v0["iou3d"]) <= 10 * IOU_TOL and close(vm["cd"], v0["cd"], 1e-8, 1e-9), "C06/score_changes_under_common_rigid_motion_of_derived_objects", dict(cls=cls, before=v0, after=vm), "MatchingMethod")
             eb, gb = ds_mod.convert_objects_to_base_link([em, gm], ego_b)
             for o in (eb, gb):
                 o.frame_id = FrameID.BASE_LINK
@@ -276,7 +301,7 @@ def derived_pairs(ctx: Ctx, n: int) -> None:
             be = O.box_of(eb)
             twin = O.obj3d(*be)
             vt = values(twin, eb)
-            ctx.check(abs(vt["iou2d"] - 1.0) <= 10 * IOU_TOL and abs(vt["cd"]) <= 1e-6 and abs(vt["pd"]) <= 1e-6, "C06/identical_boxes_not_extreme_scores", dict(cls="derived_twin", v=vt), "MatchingMethod")
+            ua.check(abs(vt["iou2d"] - 1.0) <= 10 * IOU_TOL and abs(vt["cd"]) <= 1e-6 and abs(vt["pd"]) <= 1e-6, "C06/identical_boxes_not_extreme_scores", dict(cls="derived_twin", v=vt), "MatchingMethod")
             # interpolation between two poses
             g2 = O.obj3d(b[0] + r.uniform(-5, 5), b[1] + r.uniform(-5, 5), b[2], G.wrap_pi(b[3] + r.uniform(-1, 1)), b[4], b[5], b[6], uuid="g")
             values(e, g2)
@@ -286,11 +311,80 @@ def derived_pairs(ctx: Ctx, n: int) -> None:
             ctx.case(("derived", cls), nontrivial=True)
 
 
+WITNESS_D16 = dict(
+    position=(4.37531692562192, 0.6678936196093224, 0.3442277595317824),
+    size=(0.5756762302397676, 1.565798139314568, 2.545107936970031),
+    q_est=(0.8912776707761432, 0.0, 0.0, 0.4534579512764694),
+    q_gt=(0.8912776707761433, 0.0, 0.0, 0.4534579512764693),
+)
+
+
+def _ulp(x: float, k: int) -> float:
+    for _ in range(abs(k)):
+        x = float(np.nextafter(x, math.inf if k > 0 else -math.inf))
+    return x
+
+
+def collinear_pairs(ctx: Ctx, n: int) -> None:
+    """Overlapping boxes with an edge on a common line up to rounding: copies that differ in the last bits (a ground truth
+    echoed through a yaw / frame round trip), same pose with another length or width, boxes slid along their own axis.
+    Index 0 is the recorded witness of known finding D16."""
+    from pyquaternion import Quaternion
+
+    for idx in ctx.indices("collinear", n):
+        r = ctx.rng("collinear", idx)
+        ua_k0 = ctx.counters.get("C06.known_collinear_zero", 0)
+        if idx == 0:
+            cls = "witness"
+            W = WITNESS_D16
+            g = O.obj3d(*W["position"], 0.0, *W["size"], uuid="g")
+            e = O.obj3d(*W["position"], 0.0, *W["size"], uuid="e")
+            g.state.orientation = Quaternion(*W["q_gt"])
+            e.state.orientation = Quaternion(*W["q_est"])
+            ctx.begin_case("collinear", idx, cls=cls, witness=W)
+        else:
+            cls = ["ulp_pose", "yaw_roundtrip", "resize", "slide", "frame_roundtrip"][idx % 5]
+            yaw = r.choice([0.0, math.pi / 2, math.pi / 4, -math.pi / 2, math.pi]) if r.random() < 0.2 else r.uniform(-math.pi, math.pi)
+            x, y, z = r.uniform(-60, 60), r.uniform(-60, 60), r.uniform(-1, 1)
+            w, l, h = r.uniform(0.3, 4), r.uniform(0.3, 10), r.uniform(0.5, 3)
+            a = (x, y, z, yaw, w, l, h)
+            g = O.obj3d(*a, uuid="g")
+            if cls == "ulp_pose":
+                b = (_ulp(x, r.randint(-2, 2)), _ulp(y, r.randint(-2, 2)), z, _ulp(yaw, r.randint(-2, 2)), w, l, h)
+                e = O.obj3d(*b, uuid="e")
+            elif cls == "yaw_roundtrip":
+                b = O.box_of(g)
+                e = O.obj3d(*b, uuid="e")
+            elif cls == "resize":
+                b = (x, y, z, yaw, w, l * r.uniform(0.3, 2.0), h) if r.random() < 0.5 else (x, y, z, yaw, w * r.uniform(0.3, 2.0), l, h)
+                e = O.obj3d(*b, uuid="e")
+            elif cls == "slide":
+                d = r.uniform(-l, l)
+                b = (x + math.cos(yaw) * d, y + math.sin(yaw) * d, z, yaw, w, l * r.uniform(0.5, 1.5), h)
+                e = O.obj3d(*b, uuid="e")
+            else:
+                ego = ((r.uniform(-300, 300), r.uniform(-300, 300), 0.0), O.rand_yaw(r))
+                m = O.to_map(g, *ego)
+                bm = O.box_of(m)
+                # bring the map-frame copy back by the oracle's own algebra
+                c, s_ = math.cos(-ego[1]), math.sin(-ego[1])
+                dx, dy = bm[0] - ego[0][0], bm[1] - ego[0][1]
+                b = (c * dx - s_ * dy, s_ * dx + c * dy, bm[2] - ego[0][2], G.wrap_pi(bm[3] - ego[1]), w, l, h)
+                e = O.obj3d(*b, uuid="e")
+            ctx.begin_case("collinear", idx, cls=cls, a=a, b=b)
+        v = values(e, g)
+        values(g, e)
+        ctx.count("C06.collinear_checked")
+        hit = ctx.counters.get("C06.known_collinear_zero", 0) != ua_k0
+        ctx.case(("collinear", cls, "known_finding_instance" if hit else "exact"), nontrivial=True, sample=dict(cls=cls, values=v) if idx < 3 else None)
+
+
 def run(ctx: Ctx) -> None:
     with Taps(ctx) as taps:
         install(taps, ctx)
         box_pairs(ctx, 1500 if ctx.quick else 120000)
         derived_pairs(ctx, 150 if ctx.quick else 15000)
+        collinear_pairs(ctx, 1500 if ctx.quick else 150000)
         roi_pairs(ctx, 4 if ctx.quick else 6)
         random_rois(ctx, 300 if ctx.quick else 20000)
         ctx.notes["taps"] = taps.installed
